@@ -788,7 +788,7 @@ def e2e_plan(ctx):
     """list of (program params, [(mode, opt, optset, live)])"""
     rng = ctx.rng
     plan = []
-    nprog = ctx.n(8, 60)
+    nprog = ctx.n(8, 45)
     per = ctx.n(10, 24)
     osets = [o for o in option_sets(ctx.scratch) if not o.startswith("args-") and not o.startswith("max-stack-")
              and o not in ("finish", "script-fp", "recover-rec")]
@@ -842,6 +842,7 @@ def e2e(ctx, objdir):
         jobs.append((key, {"corpus": c["name"], "seed": c["name"], "threads": 1}, c["source"],
                      {"sigs": [c["name"]]}, c["mode"], c["opt"], c["optset"], False))
     # clause-audit scenarios: exit paths, call depth beyond --max-stack, FP environment, fork/vfork/exec, signals
+    seen_sc = set()
     for si, name in enumerate(sorted(SC.SCENARIOS)):
         key = "s_" + name
         sources[key] = SC.source(name)
@@ -850,8 +851,12 @@ def e2e(ctx, objdir):
             oset = ctx.rng.choice(SC.PLAN[name])
             if mode == "cyg" and oset in ("args", "auto-args"):
                 oset = "plain"
+            opt = ctx.rng.choice(["-O1", "-O2"])
+            if (key, mode, opt, oset) in seen_sc:          # one data directory / report file per configuration
+                continue
+            seen_sc.add((key, mode, opt, oset))
             jobs.append((key, {"scenario": name, "seed": ("scenario", name), "threads": 1}, sources[key],
-                         {"sigs": ["scenario:" + name]}, mode, ctx.rng.choice(["-O1", "-O2"]), oset, False))
+                         {"sigs": ["scenario:" + name]}, mode, opt, oset, False))
     # finish-trigger scenarios: another thread ends tracing while workers sit in (tail-)called functions
     import random
     for fi in range(ctx.n(6, 40)):
@@ -996,7 +1001,7 @@ def run(ctx):
 
     # ---- (a) shadow-stack trees
     scases = []
-    n = ctx.n(160, 3000)
+    n = ctx.n(160, 2000)
     groups = {}
     for i in range(n):
         shape = SHAPES[i % len(SHAPES)]
